@@ -19,13 +19,7 @@ PROPS['C01'] = dict(
     level='other',
     harness='h01',
     min_t1=40,
-    explanation='T1 (unbounded, z3): every evaluation node class (constant, unary, NULL-strict unary, binary, BETWEEN, AND, OR, COALESCE, '
-                'getitem, getter) satisfies its semantic equation from the statement for arbitrary child values and - through loop '
-                'invariants - every argument count; operator bodies per operand-type overload (NULL on zero divisor, int/int division '
-                'decimal, operand order, no exception); the NULL-strict scalar-function wrapper for all operand counts. Structural '
-                'induction over expression depth is a stated meta-argument. The row loop, FROM/WHERE combination, overload lookup and '
-                'parser-to-compiler wiring are decided only on a bounded scope (T3: Connection.execute vs. a reference semantics written '
-                'from the statement; registry sweep over every registered operator overload).',
+    explanation='T1 (unbounded, z3): every evaluation node class (constant, unary, NULL-strict unary, binary, BETWEEN, AND, OR, COALESCE, getitem, getter) satisfies its semantic equation from the statement for arbitrary child values and - through loop invariants - every argument count; operator bodies per operand-type overload (NULL on zero divisor, int/int division decimal, operand order, no exception); the NULL-strict scalar-function wrapper for all operand counts; the row loop of execute_select for non-aggregate, unordered queries against the recursive specification rows_upto (one row per source row whose condition is truthy, in source order, each cell the value of its target expression on that row), followed by projection / DISTINCT / LIMIT. Structural induction over expression depth is a stated meta-argument. FROM/WHERE combination in the compiler, overload lookup and parser-to-compiler wiring are decided only on a bounded scope (T3: Connection.execute vs. a reference semantics written from the statement; registry sweep over every registered operator overload).',
     trusted_base=['structural induction over expression trees: sem is defined by the local equations each node class is proved to satisfy',
                   'Decimal arithmetic is uninterpreted (which operation on which operands under which guards is proved, not rounding)',
                   'decorator effects (registry entries) are taken from the imported package (reflection), not from symbolic execution'],
@@ -50,10 +44,7 @@ PROPS['C03'] = dict(
     level='other',
     harness='h03',
     min_t1=8,
-    explanation='T1 (unbounded): NullType orders before every value and not before itself; both nullitemgetter closures return the '
-                'item / the tuple of items in argument order with None replaced by NULL (loop invariant over any number of keys); '
-                'uniquify yields exactly the first occurrences in order (recursive spec uniq/mem, invariant over the seen-set) for every input length. '
-                'The multi-pass sort, projection, DISTINCT-then-LIMIT pipeline and ORDER BY key resolution are decided on a bounded scope (T3).',
+    explanation='T1 (unbounded): NullType orders before every value and not before itself; both nullitemgetter closures return the item / the tuple of items in argument order with None replaced by NULL (loop invariant over any number of keys); uniquify yields exactly the first occurrences in order (recursive spec uniq/mem, invariant over the seen-set) for every input length; EvalNode.__eq__ (merge soundness of ORDER BY keys with targets); Compiler._compile_order_by: one sort key per clause with its direction, every index addresses a target of the extended list, appended targets are hidden, selected targets untouched; execute_select (unordered): projection, DISTINCT, then LIMIT in that order. The multi-pass stable sort itself and what each ORDER BY key denotes (position / name / expression) are decided on a bounded scope (T3).',
     trusted_base=['list.sort is a stable sort, also with reverse=True (CPython documentation)', 'set membership coincides with == on row tuples'],
     assumptions=['values in one column are mutually comparable'],
 )
@@ -65,38 +56,26 @@ BASELINE_CMD = ('cd /repo && env -u BEANQUERY_VERIF /venv/bin/python -m pytest -
 
 PROPS['C07'] = dict(
     level='other', harness='h07', min_t1=0,
-    explanation='Bounded (T3) contract evaluation of Connection.execute: description == selected targets in order with the naming rule '
-                '(alias / column name / exact source slice that parses back), hidden GROUP BY / ORDER BY / HAVING targets never visible, '
-                'row length == description length, wildcard expansion on every table kind. T1 obligations on get_target_name and the '
-                'hidden-target branches are listed when built.',
+    explanation='T1 (unbounded): execute_select returns as description exactly the named targets in order, and rows projected to exactly those positions; get_target_name is alias, else column name, else the exact source text; targets appended by ORDER BY are hidden (name None) and the selected ones untouched. Bounded (T3): Connection.execute: naming rule incl. source slices that parse back, hidden GROUP BY / HAVING targets never visible, row length == description length, wildcard expansion on every table kind.',
     trusted_base=['TatSu parseinfo.pos/endpos delimit the node text (exercised only by the bounded scope)'],
     assumptions=[],
 )
 
 PROPS['C08'] = dict(
     level='other', harness='h08', min_t1=2,
-    explanation='T1: in_/not_in_ operator bodies (membership, argument order) and the NULL-strict binary node (shared with C01). Bounded (T3): '
-                'FROM (subquery) vs. the outer query over a materialised table (names, datatypes, rows) for 10 inner x 8 outer forms x depth 1-3; '
-                'IN / NOT IN subqueries vs. list membership incl. NULL and empty-subquery cases, outer and inner over different tables.',
+    explanation="T1: Compiler._select restores the compiler's current table and depth on normal and exceptional exit and consumes the subquery permission (frame); structural obligation: no expression handler writes Compiler.table; EvalConstantSubquery1D evaluates its subquery once and serves later rows from the cached value; in_/not_in_ operator bodies. Bounded (T3): FROM (subquery) vs. the outer query over a materialised table (names, datatypes, rows) for 10 inner x 8 outer forms x depth 1-3; IN / NOT IN subqueries vs. list membership incl. NULL and empty-subquery cases.",
     trusted_base=[], assumptions=[],
 )
 
 PROPS['C09'] = dict(
     level='other', harness='h09', min_t1=5,
-    explanation='T1: EvalConstant returns its value; Cursor.execute re-establishes the cursor state whatever the history (frame: only the '
-                'cursor fields are written, callee contracts assumed). Bounded (T3): placeholders (positional in textual order / named, in '
-                'targets, WHERE, ORDER BY, subqueries, repeated names) vs. literal substitution; folded constants vs. per-row evaluation from '
-                'columns; execution histories (text and parsed-once statements re-used with different parameters, interleaved with other '
-                'statements) vs. fresh single executions; executemany; deep comparison of the source table.',
+    explanation='T1: EvalConstant returns its value; Cursor.execute re-establishes the cursor state whatever the history (frame: only the cursor fields are written, callee contracts assumed); BeanTable.update returns a copy and never writes the shared table; BeanTable.prepare writes nothing. Bounded (T3): placeholders (positional in textual order / named, in targets, WHERE, ORDER BY, subqueries, repeated names) vs. literal substitution; folded constants vs. per-row evaluation; execution histories (text and parsed-once statements re-used with different parameters, interleaved with other statements) vs. fresh single executions; executemany; deep comparison of the source table.',
     trusted_base=[], assumptions=[],
 )
 
 PROPS['C05'] = dict(
     level='other', harness='h05', min_t1=0,
-    explanation='Bounded (T3) contract evaluation of Connection.execute on hand-written statements for every acceptance rule of the property, '
-                'token-level mutations, random token strings and hand-built ASTs: accepted exactly when the rules hold; every rejection is a '
-                'ProgrammingError (ParseError / CompilationError) and its location is a valid span that the shell can render. T1 obligations on the '
-                'compiler functions are listed in the evidence as they are built.',
+    explanation="T1 (unbounded): Compiler._compile_pivot_by raises CompilationError exactly when the statement's rule is violated and otherwise returns two distinct indexes of selected targets, the second grouped; Compiler._compile_order_by raises nothing but CompilationError; get_target_name. Bounded (T3): Connection.execute on hand-written statements for every acceptance rule of the property, token-level mutations, random token strings and hand-built ASTs: accepted exactly when the rules hold; every rejection is a ProgrammingError (ParseError / CompilationError) and its location is a valid span that the shell can render.",
     trusted_base=['TatSu reports the failure position'], assumptions=['well-formed ASTs: PIVOT BY has two columns, placeholders named by "" or an identifier'],
 )
 
@@ -122,9 +101,7 @@ PROPS['C17'] = dict(
 
 PROPS['C15'] = dict(
     level='other', harness='h15', min_t1=0,
-    explanation='Bounded (T3) contract evaluation of Connection.execute with PIVOT BY against the reshaping defined by the statement (row per first key '
-                'ascending, block per second key ascending, naming, datatypes, NULL fill, un-pivot identity) on full / sparse / duplicate / single / '
-                'empty tables with the pivot columns in every target position, by name and by position; invalid references are covered by C05.',
+    explanation='T1 (unbounded): Compiler._compile_pivot_by - both references resolve to selected targets (1-based position or name), they are distinct, the second is a GROUP BY column, rejected exactly otherwise. Bounded (T3): Connection.execute with PIVOT BY against the reshaping defined by the statement (row per first key ascending, block per second key ascending, naming, datatypes, NULL fill, un-pivot identity) on full / sparse / duplicate / single / empty tables with the pivot columns in every target position, by name and by position.',
     trusted_base=[], assumptions=['pivot key values are non-NULL and mutually comparable (the statement: grouped by exactly the two pivot columns)'],
 )
 
@@ -156,25 +133,19 @@ PROPS['C13'] = dict(
 
 PROPS['C14'] = dict(
     level='other', harness='h14', min_t1=0,
-    explanation='Bounded (T3): BALANCES / JOURNAL against the per-account sums and the posting register computed from the plain SELECT over the same FROM clause, '
-                'for every summary function, FROM clause, WHERE condition and account pattern of the scope; PRINT output re-loaded with the Beancount loader and '
-                'compared directive by directive. T1 obligations on transform_balances / transform_journal / execute_print are listed as they are built.',
+    explanation='T1 (unbounded): transform_journal / transform_balances build their Select from the statement alone: FROM (and for BALANCES, WHERE) passed through as the same AST, the JOURNAL account pattern is the constant right operand of a regex match on the account column (never spliced into query text), every clause the statement cannot express is absent. Bounded (T3): BALANCES / JOURNAL against the per-account sums and the posting register computed from the plain SELECT over the same FROM clause, for every summary function, FROM clause, WHERE condition and account pattern of the scope; PRINT output re-loaded with the Beancount loader and compared directive by directive.',
     trusted_base=['Beancount printer and loader', 'textwrap.shorten'], assumptions=[],
 )
 
 PROPS['C16'] = dict(
     level='other', harness='h16', min_t1=0,
-    explanation='Bounded (T3) contract evaluation of render_text / render_csv on generated result tables of every datatype x all 32 boolean option combinations '
-                '(+ nullvalue / list separator variants): rectangular output, fixed offsets, headers, NULL placeholder, row expansion, decimal alignment, read-back of every '
-                'cell, CSV records. T1 obligations on the renderer width arithmetic are listed in the evidence as they are built.',
+    explanation='T1 (unbounded): the two-phase width protocol - ColumnRenderer.prepare / width (no width before prepare), update of the str()-cell renderers, booleans and dates widens to cover the cell and never narrows; DecimalRenderer.update keeps the running maxima of integral width (sign included) and fractional digits so that every fed value fits, prepare computes integral + point + fractional. Bounded (T3): render_text / render_csv on generated result tables of every datatype x all 32 boolean option combinations (+ nullvalue / list separator variants): rectangular output, fixed offsets, headers, NULL placeholder, row expansion, decimal alignment, read-back of every cell, CSV records; amount / position / inventory renderers (Beancount DisplayContext).',
     trusted_base=['Beancount DisplayContext formatting', 'str.ljust/rjust/center semantics'], assumptions=[],
 )
 
 PROPS['C04'] = dict(
     level='other', harness='h04', min_t1=0,
-    explanation='Bounded (T3): for every registered function / operator overload, conforming operands from per-type pools are evaluated and the value checked against '
-                'the declared datatype (and for TypeError); every column of every ledger table, structured attribute access, every aggregate x column type, interval arithmetic, '
-                'renderer lookup for every announced datatype. T1 obligations in the type-tag domain are listed in the evidence as they are built.',
+    explanation='T1: the dtype announced by node classes and column accessors shared with C01 / C11 contracts (type-tag obligations). Bounded (T3): for every registered function / operator overload, conforming operands from per-type pools are evaluated and the value checked against the declared datatype (and for TypeError); every column of every ledger table, structured attribute access, every aggregate x column type, interval arithmetic, renderer lookup for every announced datatype.',
     trusted_base=['Beancount field types'], assumptions=['collections conform by kind (set / list interchangeable), object admits anything'],
 )
 
@@ -188,9 +159,7 @@ PROPS['C06'] = dict(
 
 PROPS['C19'] = dict(
     level='other', harness='h19', min_t1=0,
-    explanation='Bounded (T3) sessions in batch mode: shell output vs the renderer applied to the API result over a settings grid, .run of named queries, .set semantics '
-                '(valid / invalid / unknown incl. attribute names of the settings object), command dispatch, CLI options through click. T1 obligations on Settings and the dispatcher are '
-                'listed in the evidence as they are built.',
+    explanation='T1 (unbounded in the value text): Settings.setstr for each of the nine settings stores the parsed value in exactly that setting (frame: every other setting unchanged), raises ValueError and changes nothing for a value invalid for the type, raises AttributeError and changes nothing for a name that is not a setting; getstr echoes booleans as true/false and texts quoted. Bounded (T3) sessions in batch mode: shell output vs the renderer applied to the API result over a settings grid, .run of named queries, command dispatch, CLI options through click.',
     trusted_base=['cmd.Cmd.parseline, shlex.split, click'], assumptions=[],
 )
 
@@ -207,3 +176,38 @@ PROPS['C20'] = dict(
 )
 PROPS['C05']['min_t1'] = 4
 PROPS['C15']['min_t1'] = 4
+
+
+# ---- deciding method per property (MANIFEST "technique") and vacuity floor (min_t1 ~ 70% of the obligations generated on the pinned tree) ----
+_T1 = ('contract-based deductive verification: pre/postconditions, loop invariants and frames on the real functions, VCs generated from the ast of /repo on every run '
+       '(pyvc) and discharged by z3; ')
+_T3 = 'the parts outside the contracts are decided by bounded native contract evaluation (labelled bounded, never counted as proved)'
+TECHNIQUE = {
+    'C01': _T1 + 'row loop of execute_select against a recursive specification, node classes, operator bodies; ' + _T3,
+    'C02': _T1 + 'allocator and aggregator update / initialize / finalize with slot frames; the group loop: ' + _T3,
+    'C03': _T1 + 'NullType order, nullitemgetter closures, uniquify against a recursive specification, ORDER BY key resolution, DISTINCT/LIMIT pipeline of execute_select; the multi-pass sort: ' + _T3,
+    'C04': _T1 + 'type-tag obligations on node classes and column accessors; registry sweep: ' + _T3,
+    'C05': _T1 + 'raises-iff contracts of the clause compilers (PIVOT BY, ORDER BY), get_target_name; statement-level acceptance: ' + _T3,
+    'C06': 'bounded native contract evaluation only (parse(print(a)) == a over enumerated ASTs; generated parser == grammar translation): the deciding code is the TatSu runtime, '
+           'no function contract on it is discharged - nothing is counted as proved',
+    'C07': _T1 + 'description / projection of execute_select, get_target_name, hidden ORDER BY targets; ' + _T3,
+    'C08': _T1 + 'frame of the compiler state across nested SELECTs (Compiler._select), IN-subquery node caching; structural obligation that no expression handler writes Compiler.table; composition: ' + _T3,
+    'C09': _T1 + 'Cursor.execute state re-establishment, EvalConstant, BeanTable.update/prepare frames; histories: ' + _T3,
+    'C10': _T1 + 'representation invariant and DB-API postcondition of every Cursor method, Column sequence protocol (all proved, unbounded)',
+    'C11': _T1 + '32 column accessors against the naming rule; table iteration: ' + _T3,
+    'C12': _T1 + 'aggregator initialize / slot frames; the inventory algebra is Beancount (trusted): ' + _T3,
+    'C13': _T1 + 'BeanTable.prepare (order and iff-conditions of open/close/clear, reads clause, no writes), BeanTable.update; balance preservation is a theorem about beancount.ops.summarize: ' + _T3,
+    'C14': _T1 + 'transform_journal / transform_balances (clauses passed through, account pattern as a constant operand, no other clauses); result equality with the SELECT expansions and PRINT round trip: ' + _T3,
+    'C15': _T1 + 'Compiler._compile_pivot_by (references resolve to selected targets, rejection rule); the reshaping itself: ' + _T3,
+    'C16': _T1 + 'two-phase width protocol of the column renderers (update widens and covers, prepare fixes the width, decimals: integral/fractional maxima); table layout: ' + _T3,
+    'C17': _T1 + 'the four numberify converters; numberify_results: ' + _T3,
+    'C18': _T1 + 'date arithmetic, truncation / part functions, casts, numeric functions for all inputs; the property domain is finite and additionally evaluated exhaustively (bounded, labelled)',
+    'C19': _T1 + 'Settings.setstr / getstr per setting (stores exactly that setting, rejects invalid values and unknown names, changes nothing else); shell sessions: ' + _T3,
+    'C20': 'ownership / frame obligations generated from the ast of /repo for every write site reachable from the execution entry points (structural, decided syntactically, no solver); '
+           'deterministic two/three-thread schedules as bounded native stand-in',
+}
+MIN_T1 = {'C01': 63, 'C02': 40, 'C03': 38, 'C04': 45, 'C05': 26, 'C06': 0, 'C07': 21, 'C08': 22, 'C09': 14, 'C10': 34, 'C11': 47, 'C12': 3, 'C13': 5,
+          'C14': 5, 'C15': 5, 'C16': 24, 'C17': 5, 'C18': 58, 'C19': 39, 'C20': 98}
+for _p, _c in PROPS.items():
+    _c['technique'] = TECHNIQUE[_p]
+    _c['min_t1'] = MIN_T1[_p]
